@@ -136,11 +136,13 @@ def data_side(node):
     return sides
 
 
-def side_consistency(model, res):
+def side_consistency(model, res, prop=PROP, rule='C09.side-consistency', callees=None, min_calls=20, why=None):
     """Every call of a wave-curve / state helper made by the two Riemann drivers
     receives its (p, r, u, g) state from ONE side: e.g. shock_velocity(px, pr, rr, ur, gr)."""
     from ..vg import Closure
     n_calls = 0
+    why = why or ("the wave on one side is computed with the other gas's data, which breaks mirror symmetry (and the "
+                  "EOS link / agreement with the other solver) whenever the two states differ in that component")
     for cname in ('exactpack.solvers.riemann.riemann:RiemannIGEOS', 'exactpack.solvers.riemann.riemann:RiemannGenEOS'):
         cls = model.get_class(cname)
         fi = cls.methods.get('driver')
@@ -154,6 +156,8 @@ def side_consistency(model, res):
         b.call_closure(clo, [xu], {}, fi.node)
         for at, callee, args, caller in b.call_log:
             if callee.module.name != UTILS or caller is None:
+                continue
+            if callees is not None and callee.name not in callees:
                 continue
             if caller is not fi and getattr(caller, 'parent', None) is not fi:
                 continue
@@ -172,19 +176,18 @@ def side_consistency(model, res):
             res.nontrivial += 1
             pure = {nm: next(iter(s)) for nm, s in per_arg.items() if len(s) == 1}
             if len(set(pure.values())) > 1:
-                res.add(Finding(PROP, 'C09.side-consistency', fi.module.relpath, caller.qualname if caller.parent is None else fi.qualname,
+                res.add(Finding(prop, rule, fi.module.relpath, caller.qualname if caller.parent is None else fi.qualname,
                                 '%s: %s(%s)' % (cls.name, callee.name, ', '.join('%s:%s' % (k, pure[k]) for k in sorted(pure))),
-                                "%s.driver calls %s with a state whose components come from different sides (%s): the wave "
-                                "on one side is computed with the other gas's data, which breaks mirror symmetry (and the "
-                                "EOS link / agreement with the other solver) whenever the two states differ in that component"
+                                "%s.driver calls %s with a state whose components come from different sides (%s): %s"
                                 % (cls.name, callee.name, ', '.join('%s from the %s state' % (k, {'l': 'left', 'r': 'right'}[v])
-                                                                   for k, v in sorted(pure.items()))),
+                                                                   for k, v in sorted(pure.items())), why),
                                 line=getattr(at, 'lineno', 0), construct=src_of_call(at)))
             else:
                 res.discharged += 1
-    if n_calls < 20:
-        raise AnalysisError('only %d helper calls with a one-sided state recognised in the Riemann drivers (confirmed >= 20)' % n_calls)
-    res.extra['riemann_helper_calls_checked'] = n_calls
+    if n_calls < min_calls:
+        raise AnalysisError('only %d helper calls with a one-sided state recognised in the Riemann drivers (confirmed >= %d)'
+                            % (n_calls, min_calls))
+    res.extra['riemann_helper_calls_checked_' + rule] = n_calls
 
 
 def src_of_call(at):
